@@ -494,6 +494,11 @@ func (s *Sim) onAccepted(p *Pkt, in *PktInfo, mo *MsgObs) {
 		s.violate("C02", "conservation", "nothing-forwarded", fmt.Sprintf("packet op=%d: success but no outflow from the orbiter account", p.Origin))
 		return
 	}
+	// C16: the coin the orbiter acts on (fees + forwarded) is exactly the coin ICS-20 credited
+	s.Stats.Count("rule:C16.acted-on-coin")
+	if sum.Cmp(c.Amt) != 0 {
+		s.violate("C16", "acted-on-coin-is-credited-coin", "acted-on-amount-differs", fmt.Sprintf("packet op=%d: ICS-20 credited %s%s, fees plus forwarded amount to %s", p.Origin, c.Amt, c.Denom, sum))
+	}
 	if sum.Cmp(c.Amt) != 0 {
 		s.violate("C02", "conservation", "fees-plus-out-ne-received", fmt.Sprintf("packet op=%d: received %s, paid out %s (%v)", p.Origin, c.Amt, sum, renderFlows(e, outs)))
 	}
